@@ -6,6 +6,10 @@ props = [json.loads(l) for l in open(os.path.join(V, "properties.jsonl"))]
 SEQ_NOTE = ("trusted: gcc/ASan/UBSan, the reference model in seq/, the harness stubs that replace only I/O callbacks and "
             "_exit; the code under test is the real translation unit rebuilt from /repo's working tree")
 CHECKS = {
+ "C05": dict(engine="SEQ", category="exploration", design_ref="4/C05",
+             technique="bounded-exhaustive enumeration of every byte stream over {CR,LF,'.',a[,R|SP]} (length<=10 quick, <=12 thorough) and every read chunking through the real blast()/commands() of qmail-smtpd.c against an RFC 5321 reference receiver; every message through a reference sender and the real qmail-remote encoder into the real decoder",
+             text="All strings of the bounded space are executed on the real decoder (function level and through the real command loop), so within the bound the for-all-inputs statement is decided, not sampled; the recogniser has 5 states and looks at one byte at a time, so length 10-12 over the 4 relevant byte classes exercises every state/byte transition in every context.",
+             note=SEQ_NOTE),
  "C06": dict(engine="SEQ", category="exploration", design_ref="4/C06",
              technique="bounded-exhaustive enumeration of every message over {CR,LF,'.',a} (length<=10 quick, <=12 thorough), every read chunking and every read-error offset, through the real blast(); oracle = wire invariants + RFC 5321 reference receiver round trip",
              text="Every string of the bounded space is executed on the real encoder, so within the bound this is a complete decision of the for-all-strings property; the bound covers every placement of CR, LF and '.' relative to line starts (the encoder's state depends on at most the previous two bytes).",
